@@ -26,6 +26,55 @@ class Boom(Exception):
     """The custom exception class raised by the faulting callback."""
 
 
+# The library (and Django) catch / re-raise several builtin families internally, so the injected exception is drawn
+# per run from user subclasses of each of them; the caller must receive the very same object of the very same class.
+class BoomType(TypeError):
+    pass
+
+
+class BoomKey(KeyError):
+    pass
+
+
+class BoomAttr(AttributeError):
+    pass
+
+
+class BoomValue(ValueError):
+    pass
+
+
+class BoomRich(Exception):
+    """a user exception with state of its own and a custom __str__"""
+
+    def __init__(self, *args):
+        super().__init__(*args)
+        self.amount = 42
+        self.detail = {"why": ["x", 1]}
+
+    def __str__(self):
+        return "rich(%s)" % self.amount
+
+
+def _make_tse():
+    from django.template import TemplateSyntaxError
+
+    class BoomTSE(TemplateSyntaxError):
+        pass
+    return BoomTSE
+
+
+FAULT_CLASSES = ["Boom", "BoomType", "BoomKey", "BoomAttr", "BoomTSE", "BoomValue", "BoomRich"]
+_fault_cls = {}
+
+
+def fault_class(name):
+    if not _fault_cls:
+        _fault_cls.update({"Boom": Boom, "BoomType": BoomType, "BoomKey": BoomKey, "BoomAttr": BoomAttr,
+                           "BoomValue": BoomValue, "BoomRich": BoomRich, "BoomTSE": _make_tse()})
+    return _fault_cls[name]
+
+
 class RenderTimeout(BaseException):
     pass
 
@@ -62,10 +111,11 @@ class Tracer:
         self.reset(None, "str")
         self.alloc = []          # render ids / provide ids in allocation order (kept across a history)
 
-    def reset(self, target, variant, keep_alloc=False):
+    def reset(self, target, variant, keep_alloc=False, cls="Boom"):
         self.count = 0
         self.target = target
         self.variant = variant
+        self.cls = cls
         self.raised = None
         self.raised_text = None
         self.events = []
@@ -79,7 +129,8 @@ class Tracer:
         self.count += 1
         self.events.append(("P", kind, rid))
         if self.target is not None and idx == self.target:
-            exc = Boom(*ARG_VARIANTS[self.variant])
+            exc = fault_class(self.cls)(*ARG_VARIANTS[self.variant])
+            exc.c06_payload = ("payload", idx)
             self.raised = exc
             self.raised_text = original_text(exc)
             raise exc
@@ -258,7 +309,7 @@ def _has_fill(ts):
     return False
 
 
-def decorate(prog, rng, p_point=0.22, p_wrap=0.3, p_drop=0.06, p_sanitize=0.85, p_extract=0.4):
+def decorate(prog, rng, p_point=0.22, p_wrap=0.3, p_drop=0.06, p_sanitize=0.85, p_extract=0.4, p_input=0.25):
     """insert `{% c06p %}` / `{{ ""|c06f }}` points, `<b>..</b>` wrappers around component tags and
     `{% c06drop %}` regions into the templates of a genprog program (as raw text nodes).
     With probability p_sanitize the program's own error sources (required slots, inject without default) are
@@ -276,7 +327,8 @@ def decorate(prog, rng, p_point=0.22, p_wrap=0.3, p_drop=0.06, p_sanitize=0.85, 
             if t2[0] == "comp" and text_ok:
                 c = rng.random()
                 if c < p_wrap:
-                    out.extend([("text", "<b>"), t2, ("text", "</b>")])
+                    attrs = ' {% html_attrs class="w"|c06f %}' if rng.random() < p_input else ""
+                    out.extend([("text", "<b%s>" % attrs), t2, ("text", "</b>")])
                     continue
                 if c < p_wrap + p_drop:
                     out.extend([("text", "{% c06drop %}"), t2, ("text", "{% endc06drop %}")])
@@ -299,6 +351,23 @@ def decorate(prog, rng, p_point=0.22, p_wrap=0.3, p_drop=0.06, p_sanitize=0.85, 
                 return ("var", x)
         return e
 
+    def piped(e):
+        """the expression piped through the callback filter (keeping genprog's bare spelling, see xp)"""
+        for f in ("c06f", "c06g"):
+            x = G.d_expr(e) + "|" + f
+            if sum(map(ord, x)) % 3 != 0:
+                return ("var", x)
+        return e
+
+    def kwin(kw, spread=False):
+        """tag INPUTS: user code (the callback filter) runs while the library resolves the tag's parameters"""
+        out = [(k_, piped(e) if rng.random() < p_input else e) for k_, e in kw]
+        if spread and rng.random() < p_input / 2:
+            # `...c06sp|c06f` spreads an empty mapping of the page context through the filter (the key of this entry is
+            # printed verbatim by genprog: ` ...c06sp|c06f zz="1"`)
+            out.append(("...c06sp|c06f zz", ("str", "1")))
+        return out
+
     def t1(t, text_ok):
         k = t[0]
         if k == "if":
@@ -306,13 +375,13 @@ def decorate(prog, rng, p_point=0.22, p_wrap=0.3, p_drop=0.06, p_sanitize=0.85, 
         if k in ("for", "with"):
             return (k, t[1], xp(t[2], text_ok), ts(t[3], text_ok))
         if k == "slot":
-            return ("slot", t[1], t[2], t[3] and not sanitize, t[4], ts(t[5], text_ok))
+            return ("slot", t[1], t[2], t[3] and not sanitize, kwin(t[4]), ts(t[5], text_ok))
         if k == "fill":
             return ("fill", xp(t[1], text_ok), t[2], t[3], ts(t[4], True))
         if k == "comp":
-            return ("comp", t[1], t[2], t[3], ts(t[4], not _has_fill(t[4])))
+            return ("comp", t[1], kwin(t[2], spread=True), t[3], ts(t[4], not _has_fill(t[4])))
         if k == "provide":
-            return ("provide", t[1], t[2], ts(t[3], text_ok))
+            return ("provide", t[1], kwin(t[2]), ts(t[3], text_ok))
         return t
     q = dict(prog)
     q["page"] = ts(prog["page"], True)
@@ -321,6 +390,8 @@ def decorate(prog, rng, p_point=0.22, p_wrap=0.3, p_drop=0.06, p_sanitize=0.85, 
             return dl
         return [(x, ("inject", d[1], d[2], "DFx") if d[0] == "inject" and d[3] is None else d) for x, d in dl]
     q["lib"] = [(n, {"tpl": ts(cd["tpl"], True), "data": data(cd["data"])}) for n, cd in prog["lib"]]
+    if not any(k_ == "c06sp" for k_, _ in q["ctx"]):
+        q["ctx"] = list(q["ctx"]) + [("c06sp", {})]
     return q
 
 
@@ -334,6 +405,26 @@ def has_drop_with_component(prog):
 # ------------------------------------------------------------------------------------------------
 class Sent(str):
     """a str that can be weakly referenced: stands for an object the caller passes into a render"""
+
+
+class CallVar:
+    """a callable context variable: Django calls it whenever a template (or a tag input) resolves the name"""
+
+    def __init__(self, value):
+        self.value = value
+
+    def __call__(self):
+        TR.point("callable")
+        return self.value
+
+
+def callvar(name, v, acc):
+    """every third string variable of the page context (by name) is handed over as a callable"""
+    if isinstance(v, str) and sum(map(ord, name)) % 3 == 1:
+        c = CallVar(v)
+        acc.append(c)
+        return c
+    return v
 
 
 def sentinelize(v, acc):
@@ -404,18 +495,18 @@ def ctx_fingerprint(ctx):
     return [[sorted(str(k) for k in d.keys()) for d in ctx.dicts], len(ctx.render_context.dicts)]
 
 
-def run_once(job, target, variant, keep_alloc=False, limit=30.0, again=False):
+def run_once(job, target, variant, keep_alloc=False, limit=30.0, again=False, cls="Boom"):
     """one render of `job` with callback invocation `target` raising (None: nobody raises).
     again: afterwards the job is rendered once more, fault-free, with the SAME Context object (tracing off);
     its canonical output is reported as obs['again'].  Returns a dict of observations (JSON-able)."""
     from django.template import Context
-    TR.reset(target, variant, keep_alloc=keep_alloc)
+    TR.reset(target, variant, keep_alloc=keep_alloc, cls=cls)
     sentinels = []
-    ctx = Context({k: sentinelize(v, sentinels) for k, v in job.prog["ctx"]})
+    ctx = Context({k: callvar(k, sentinelize(v, sentinels), sentinels) for k, v in job.prog["ctx"]})
     d0 = len(ctx.render_context.dicts)
     n0 = len(ctx.dicts)
     fp0 = ctx_fingerprint(ctx)
-    obs = {"target": target, "variant": variant}
+    obs = {"target": target, "variant": variant, "cls": cls}
     signal.signal(signal.SIGALRM, _alarm)
     signal.setitimer(signal.ITIMER_REAL, limit)
     try:
@@ -426,14 +517,6 @@ def run_once(job, target, variant, keep_alloc=False, limit=30.0, again=False):
             del out
         finally:
             signal.setitimer(signal.ITIMER_REAL, 0)
-    except Boom as e:
-        obs["res"] = "boom"
-        obs["same_object"] = e is TR.raised
-        obs["exact_class"] = type(e) is Boom
-        obs["components"] = list(getattr(e, "_components", []) or [])
-        obs["args"] = [a if isinstance(a, (str, int, type(None))) else repr(a) for a in e.args]
-        obs["nargs"] = len(e.args)
-        obs["orig_text"] = TR.raised_text
     except RenderTimeout:
         # wall-clock watchdog (loaded machine / a looping program): not a C06 matter, reported as inconclusive
         obs["res"] = "timeout"
@@ -441,10 +524,22 @@ def run_once(job, target, variant, keep_alloc=False, limit=30.0, again=False):
         obs["res"] = "other"
         obs["exc"] = "RecursionError"
     except Exception as e:  # noqa
-        obs["res"] = "other"
-        obs["exc"] = type(e).__name__
-        obs["msg"] = str(e)[:300]
-        obs["components"] = list(getattr(e, "_components", []) or [])
+        if TR.raised is not None and e is TR.raised:
+            # the user's exception object reached the caller
+            obs["res"] = "boom"
+            obs["same_object"] = True
+            obs["exact_class"] = type(e) is fault_class(cls)
+            obs["state_kept"] = getattr(e, "c06_payload", None) == ("payload", target) and \
+                (cls != "BoomRich" or (getattr(e, "amount", None) == 42 and getattr(e, "detail", None) == {"why": ["x", 1]}))
+            obs["components"] = list(getattr(e, "_components", []) or [])
+            obs["args"] = [a if isinstance(a, (str, int, type(None))) else repr(a) for a in e.args]
+            obs["nargs"] = len(e.args)
+            obs["orig_text"] = TR.raised_text
+        else:
+            obs["res"] = "other"
+            obs["exc"] = "%s.%s" % (type(e).__module__, type(e).__name__)
+            obs["msg"] = str(e)[:300]
+            obs["components"] = list(getattr(e, "_components", []) or [])
     obs["npoints"] = TR.count
     obs["fired"] = TR.raised is not None
     obs["rc"] = len(ctx.render_context.dicts) - d0
@@ -564,7 +659,7 @@ class TreeBuilder:
             if k == "EOF":
                 raise TraceError("unexpected end of trace")
             if k == "P":
-                if e[1] not in ("tag", "filter", "slotfn"):
+                if e[1] not in ("tag", "filter", "slotfn", "callable"):
                     raise TraceError("component hook %r outside its place at %d" % (e, self.pos))
                 self.pos += 1
                 items.append(("point",))
@@ -716,13 +811,13 @@ def tree_features(items, depth=0, acc=None):
 # ------------------------------------------------------------------------------------------------
 # Observation -> Coq term
 # ------------------------------------------------------------------------------------------------
-def umsg_lines(variant):
-    exc = Boom(*ARG_VARIANTS[variant])
+def umsg_lines(variant, cls="Boom"):
+    exc = fault_class(cls)(*ARG_VARIANTS[variant])
     return original_text(exc).split("\n")
 
 
-def c_umsg(variant):
-    return C.clist(["MUser %s" % C.cN(i) for i in range(len(umsg_lines(variant)))])
+def c_umsg(variant, cls="Boom"):
+    return C.clist(["MUser %s" % C.cN(i) for i in range(len(umsg_lines(variant, cls)))])
 
 
 def c_msg(obs, labels):
@@ -783,8 +878,9 @@ def oracle(obs):
     if obs["alive"]:
         bad.append(("sentinel-alive", {"alive": obs["alive"], "of": obs["nsent"]}))
     if obs["res"] == "boom":
-        if not (obs["same_object"] and obs["exact_class"]):
-            bad.append(("exception-replaced", {"same_object": obs["same_object"], "exact_class": obs["exact_class"]}))
+        if not (obs["same_object"] and obs["exact_class"] and obs.get("state_kept", True)):
+            bad.append(("exception-replaced", {"same_object": obs["same_object"], "exact_class": obs["exact_class"],
+                                               "attributes_kept": obs.get("state_kept")}))
         comps = obs["components"]
         if comps:
             exp = [PREFIX + " > ".join(comps) + ":\n" + obs["orig_text"]]
@@ -793,7 +889,7 @@ def oracle(obs):
         if obs["args"] != exp:
             bad.append(("message", {"args": obs["args"], "expected": exp}))
     elif obs["res"] == "other" and obs["fired"]:
-        bad.append(("exception-replaced", {"raised": obs.get("exc"), "msg": obs.get("msg")}))
+        bad.append(("exception-replaced", {"user code raised": obs.get("cls"), "caller got": obs.get("exc"), "msg": obs.get("msg")}))
     return bad
 
 
